@@ -86,6 +86,9 @@ Definition zero_fill_mchain (c : mchain) (from to : N) : M mchain :=
 (* resize_stream *)
 Definition resize (id new_len : N) : M unit :=
   do '(old_start, old_len) <- stream_entry id;
+  do s0 <- get;
+  (* no file holds more than MAX_REGULAR_SECTOR sectors; refused before anything changes *)
+  (if MAX_REGULAR_SECTOR * slen s0 <? new_len then fail EInvalidInput else ret tt) ;;
   do new_start <-
     (if old_start =? END_OF_CHAIN then
        (if negb (old_len =? 0) then fail EInvalidData else ret tt) ;;
